@@ -740,8 +740,24 @@ func (e *embedder) inlineHelpers(list []ast.Stmt) []ast.Stmt {
 			out = append(out, st)
 			continue
 		}
+		// a forwarding helper (one call as its whole body) is replaced by that call, operands substituted: no
+		// binding is shared between call sites
+		if pk := e.w.Pkgs[forkPath(e.pair)]; pk != nil {
+			if in := e.w.forwardedCall(pk, call); in != nil {
+				body := []ast.Stmt{&ast.ExprStmt{X: in}}
+				inlinedBody[es] = body
+				out = append(out, body...)
+				changed = true
+				continue
+			}
+		}
 		rel := relNameOfFunc(f)
 		if rel == "" || e.w.funcIdx[refPath(e.pair)][rel] != nil {
+			out = append(out, st)
+			continue
+		}
+		// the recorder's own methods are reviewed calls (TRACER_CALL, TRANSFER_REPLACEMENT), never expanded
+		if rt, rpkg := recvTypeName(f); rt != "" && rpkg != nil && rpkg.Path() == forkPath(pkVM) && tracerFamily[rt] {
 			out = append(out, st)
 			continue
 		}
@@ -766,6 +782,9 @@ func (e *embedder) inlineHelpers(list []ast.Stmt) []ast.Stmt {
 						if b, isB := info.Uses[id].(*types.Builtin); isB && (b.Name() == "len" || b.Name() == "cap") {
 							return true
 						}
+					}
+					if isPureCalleeCall(info, y) && len(y.Args) == 0 {
+						return true // a reviewed getter such as caller.Address()
 					}
 					pure = false
 				case *ast.FuncLit, *ast.CompositeLit:
